@@ -1,6 +1,6 @@
 CONSTANTS
   H = 5
-  PersonaNames = {"honest", "lunatic", "equiv", "silent", "notfound", "bad", "lag2", "lagcatch", "lagfuture", "flip2", "nopivot", "badpivot", "thin3", "weak3", "bound3", "future3", "past3", "malformed3", "badsig3", "lunatic3", "weak4bad", "weak4hole", "relay3", "relay4", "fwd_m1", "fwd_0", "fwd_p1", "lag3", "lag3adv", "lag23"}
+  PersonaNames = {"honest", "lunatic", "equiv", "silent", "notfound", "bad", "lag2", "lagcatch", "lagfuture", "flip2", "nopivot", "badpivot", "thin3", "weak3", "bound3", "future3", "past3", "malformed3", "badsig3", "lunatic3", "weak4bad", "weak4hole", "relay3", "relay4", "fwd_m1", "fwd_0", "fwd_p1", "lag3", "lag3adv", "lag23", "dup3", "dup4"}
 INIT WInit
 NEXT WNext
 CHECK_DEADLOCK FALSE
